@@ -50,6 +50,14 @@ FIXED = [
                                 ['num', '3']]},
      'sheets': ['Sheet1', 'Sheet2']},
 ]
+FIXED.append(
+    {'inputs': {'Sheet1!X1': 1, 'Sheet1!Y1': 2, 'Sheet1!Z1': 3,
+                'Sheet1!AA1': 4, 'Sheet1!AB1': 5, 'Sheet1!ZY2': 6,
+                'Sheet1!ZZ2': 7, 'Sheet1!AAA2': 8, 'Sheet1!AAB2': 9},
+     'formulas': {'Sheet1!A3': ['call', 'SUM', [['range', 'X1:AB1']]],
+                  'Sheet1!A4': ['call', 'SUM', [['range', 'ZY2:AAB2']]],
+                  'Sheet1!A5': ['op', '+', ['ref', 'A3'], ['ref', 'A4']]},
+     'sheets': ['Sheet1']})
 for _m in FIXED:
     _m['order'] = list(_m['formulas'])
 
